@@ -1,0 +1,212 @@
+//go:build verif
+
+package types
+
+import (
+	"go/ast"
+	"go/types"
+	"strings"
+)
+
+// Contracts checked by /verif/govc (see /verif/DESIGN.md). This file is compiled only with -tags verif.
+
+// spec_nresPrefix: number of results declared by the first k fields of a result list.
+func spec_nresPrefix(t *ast.FuncType, k int) int {
+	if k <= 0 {
+		return 0
+	}
+	if len(t.Results.List[k-1].Names) > 0 {
+		return spec_nresPrefix(t, k-1) + len(t.Results.List[k-1].Names)
+	}
+	return spec_nresPrefix(t, k-1) + 1
+}
+
+// spec_nres: number of results a function type declares.
+func spec_nres(t *ast.FuncType) int {
+	return spec_nresPrefix(t, len(t.Results.List))
+}
+
+//@ func visits.visited
+//@   props C14
+//@   requires v != nil && t != nil && t.Results != nil
+//@   requires forall k int :: 0 <= k && k < len(t.Results.List) ==> t.Results.List[k] != nil
+//@   requires 0 <= at && at < spec_nres(t)
+//@   requires forall u *ast.FuncType :: has(v, u) && u != nil && u.Results != nil ==> len(v[u]) == spec_nres(u)
+//@   assigns v
+//@   ensures has(v, t) && len(v[t]) == spec_nres(t) && v[t][at]
+//@   ensures result == (old(has(v, t)) && old(v[t][at]))
+//@   ensures forall u *ast.FuncType :: u != t ==> has(v, u) == old(has(v, u)) && eq(v[u], old(v[u]))
+//@   ensures forall j int :: 0 <= j && j < len(v[t]) && j != at && old(has(v, t)) ==> v[t][j] == old(v[t][j])
+//@   ensures forall j int :: 0 <= j && j < len(v[t]) && j != at && !old(has(v, t)) ==> !v[t][j]
+//@   loop 1 invariant n == spec_nresPrefix(t, it1)
+
+//@ func funcResultsFromSignature
+//@   props C14
+//@   requires sig != nil
+//@   ensures len(result) == sig.Results().Len()
+//@   ensures forall i int :: 0 <= i && i < len(result) ==> len(result[i]) == 1
+//@   loop 1 invariant 0 <= i && len(finalFuncResults) == rets.Len()
+//@   loop 1 invariant forall j int :: 0 <= j && j < i ==> len(finalFuncResults[j]) == 1
+//@   loop 1 invariant forall j int :: i <= j && j < len(finalFuncResults) ==> len(finalFuncResults[j]) == 0
+
+//@ func FuncResults.Concat
+//@   props C14
+//@   ensures len(funcResults2) == len(funcResults) ==> len(finalFuncResults) == len(funcResults) && (forall i int :: 0 <= i && i < len(funcResults) ==> len(finalFuncResults[i]) == len(funcResults[i]) + len(funcResults2[i]))
+//@   ensures len(funcResults2) != len(funcResults) ==> eq(finalFuncResults, funcResults)
+//@   loop 1 invariant len(funcResults) == len(old(funcResults))
+//@   loop 1 invariant forall j int :: 0 <= j && j < it1 ==> len(funcResults[j]) == len(old(funcResults)[j]) + len(funcResults2[j])
+//@   loop 1 invariant forall j int :: it1 <= j && j < len(funcResults) ==> eq(funcResults[j], old(funcResults)[j])
+
+// ---- references (C15) ----
+
+// Spec_cut: where the bracketed argument list of a reference starts (len(s) if there is none).
+func Spec_cut(s string) int {
+	if i := strings.Index(s, "["); i > 0 {
+		return i
+	}
+	return len(s)
+}
+
+// Spec_dot: position of the '.' that separates package path and name: the last one before the argument list.
+func Spec_dot(s string) int {
+	return strings.LastIndex(s[:Spec_cut(s)], ".")
+}
+
+func spec_refPath(t TypeName) string { return t.(*ref).pkgPath }
+func spec_refName(t TypeName) string { return t.(*ref).name }
+func spec_isRef(t TypeName) bool     { _, ok := t.(*ref); return ok }
+
+//@ func Ref
+//@   props C15
+//@   ensures spec_isRef(result) && fresh(result) && spec_refPath(result) == pkgPath && spec_refName(result) == name
+
+//@ func ParseRef
+//@   props C15
+//@   ensures Spec_dot(ref) > 0 ==> result1 == nil && spec_isRef(result0) && spec_refPath(result0) == ref[:Spec_dot(ref)] && spec_refName(result0) == ref[Spec_dot(ref)+1:]
+//@   ensures Spec_dot(ref) <= 0 ==> result0 == nil && result1 != nil
+
+//@ func ref.String
+//@   props C15
+//@   pure
+//@   requires r != nil
+//@   ensures result == r.pkgPath + "." + r.name
+
+//@ func ref.Name
+//@   props C15
+//@   pure
+//@   requires r != nil
+//@   ensures result == r.name
+
+//@ func Universe.SumFile
+//@   props C08
+//@   pure
+//@   requires v != nil
+//@   ensures result == v.sumFile
+
+// ---- comment tags (C12) ----
+
+//@ func oneOf
+//@   props C12
+//@   pure
+//@   ensures result == spec_existsIn(0, len(markers), func(i int) bool { return markers[i] == b })
+//@   loop 1 invariant forall i int :: 0 <= i && i < it1 ==> markers[i] != b
+
+// spec_key / spec_val: key and value of a tag line body (text after the marker).
+func spec_key(s string) string {
+	if i := strings.IndexAny(s, "= "); i >= 0 {
+		return s[:i]
+	}
+	return s
+}
+
+func spec_val(s string) string {
+	if i := strings.IndexAny(s, "= "); i >= 0 {
+		return s[i+1:]
+	}
+	return ""
+}
+
+//@ func splitKV
+//@   props C12
+//@   ensures (forall j int :: 0 <= j && j < len(line) ==> line[j] != '=' && line[j] != ' ') ==> result0 == line && result1 == ""
+//@   ensures forall i int :: 0 <= i && i < len(line) && (line[i] == '=' || line[i] == ' ') && (forall j int :: 0 <= j && j < i ==> line[j] != '=' && line[j] != ' ') ==> result0 == line[:i] && result1 == line[i+1:]
+//@   ensures result0 == spec_key(line) && result1 == spec_val(line)
+
+// spec_isTag: a (trimmed) line is a tag line iff it is non-empty and starts with one of the markers.
+func spec_isTag(l string, markers []byte) bool {
+	return len(l) != 0 && spec_existsIn(0, len(markers), func(i int) bool { return markers[i] == l[0] })
+}
+
+// spec_others(lines, ms, n): the trimmed non-tag lines among the first n lines, in order.
+func spec_others(lines []string, ms []byte, n int) []string {
+	if n <= 0 {
+		return nil
+	}
+	if spec_isTag(strings.Trim(lines[n-1], " "), ms) {
+		return spec_others(lines, ms, n-1)
+	}
+	return append(spec_others(lines, ms, n-1), strings.Trim(lines[n-1], " "))
+}
+
+// spec_vals(lines, ms, k, n): the values of the tag lines with key k among the first n lines, in order.
+func spec_vals(lines []string, ms []byte, k string, n int) []string {
+	if n <= 0 {
+		return nil
+	}
+	if spec_isTag(strings.Trim(lines[n-1], " "), ms) && spec_key(strings.Trim(lines[n-1], " ")[1:]) == k {
+		return append(spec_vals(lines, ms, k, n-1), spec_val(strings.Trim(lines[n-1], " ")[1:]))
+	}
+	return spec_vals(lines, ms, k, n-1)
+}
+
+// spec_markers: the effective marker list ('+' and '@' by default).
+func spec_markers(markers []byte) []byte {
+	if len(markers) == 0 {
+		return []byte{'+', '@'}
+	}
+	return markers
+}
+
+//@ func ExtractCommentTags
+//@   props C12 C06
+//@   ensures tags != nil
+//@   ensures eq(otherLines, spec_others(lines, spec_markers(markers), len(lines)))
+//@   ensures forall k string :: eq(tags[k], spec_vals(lines, spec_markers(markers), k, len(lines)))
+//@   ensures forall k string :: has(tags, k) == (len(spec_vals(lines, spec_markers(markers), k, len(lines))) > 0)
+//@   loop 1 invariant tags != nil && eq(markers, spec_markers(old(markers)))
+//@   loop 1 invariant eq(otherLines, spec_others(lines, markers, it1))
+//@   loop 1 invariant forall k string :: eq(tags[k], spec_vals(lines, markers, k, it1))
+//@   loop 1 invariant forall k string :: has(tags, k) == (len(spec_vals(lines, markers, k, it1)) > 0)
+
+var _ = types.Universe
+
+// ---- govc prelude: ghost helpers of the clause language (identical in every contracts_verif.go) ----
+
+func spec_old[T any](v T) T                             { return v }
+func spec_entry[T any](v T) T                           { return v }
+func spec_has[K comparable, V any](m map[K]V, k K) bool { _, ok := m[k]; return ok }
+func spec_implies(a, b bool) bool                       { return !a || b }
+func spec_iff(a, b bool) bool                           { return a == b }
+func spec_eq[T any](a, b T) bool                        { panic("ghost: structural equality") }
+func spec_all[T any](p func(T) bool) bool               { panic("ghost: unbounded quantifier") }
+func spec_any[T any](p func(T) bool) bool               { panic("ghost: unbounded quantifier") }
+func spec_fresh(p any) bool                             { panic("ghost: allocation predicate") }
+
+// bounded (executable) quantifiers for spec functions: lo <= i < hi
+func spec_existsIn(lo, hi int, p func(int) bool) bool {
+	for i := lo; i < hi; i++ {
+		if p(i) {
+			return true
+		}
+	}
+	return false
+}
+
+func spec_forallIn(lo, hi int, p func(int) bool) bool {
+	for i := lo; i < hi; i++ {
+		if !p(i) {
+			return false
+		}
+	}
+	return true
+}
